@@ -452,6 +452,10 @@ HfeFile::HfeFile(const std::string& name, bool compressed, std::unique_ptr<DFS::
 	  throw InvalidHfeFile(ss.str());
 	}
 
+      if (0 == header_.number_of_track)
+	{
+	  throw InvalidHfeFile("the HFE file header says the image has no tracks");
+	}
       std::vector<PicTrack> track_lut = read_track_offset_lut(file_.get(), header_.number_of_track);
 
       for (unsigned int side = 0; side < header_.number_of_side; ++side)
